@@ -549,8 +549,99 @@ func (c *Ctx) declareVar(st *State, id *ast.Ident, v Val) {
 	st.vars[o] = v
 }
 
+// ---- slice aliasing -------------------------------------------------------------------------------------
+// Slices are modelled as values, but `x = y[a:b]` shares y's backing array: appending to x (within y's
+// capacity) or assigning x[i] writes into y. The treatment is a flow-insensitive over-approximation: any two
+// local slice variables related by a re-slice anywhere in the unit are partners; a write through one leaves
+// the ELEMENTS of its partners unknown (their length is kept). Code that only reads re-slices is unaffected.
+
+func (c *Ctx) aliasPartners(o types.Object) []types.Object {
+	if c.aliases == nil {
+		c.aliases = map[types.Object][]types.Object{}
+		var body ast.Node
+		if c.unit.Lit != nil {
+			body = c.unit.Lit.Body
+		} else if c.unit.Decl != nil {
+			body = c.unit.Decl.Body
+		}
+		if body != nil {
+			link := func(a, b types.Object) {
+				if a == nil || b == nil || a == b {
+					return
+				}
+				c.aliases[a] = append(c.aliases[a], b)
+				c.aliases[b] = append(c.aliases[b], a)
+			}
+			ast.Inspect(body, func(n ast.Node) bool {
+				as, ok := n.(*ast.AssignStmt)
+				if !ok || len(as.Lhs) != len(as.Rhs) {
+					return true
+				}
+				for i, r := range as.Rhs {
+					se, ok := unparen(r).(*ast.SliceExpr)
+					if !ok {
+						continue
+					}
+					if _, isSlice := c.unit.Pkg.TypesInfo.TypeOf(se.X).Underlying().(*types.Slice); !isSlice {
+						continue
+					}
+					bid, ok1 := unparen(se.X).(*ast.Ident)
+					lid, ok2 := unparen(as.Lhs[i]).(*ast.Ident)
+					if ok1 && ok2 {
+						link(c.unit.Pkg.TypesInfo.ObjectOf(lid), c.unit.Pkg.TypesInfo.ObjectOf(bid))
+					}
+				}
+				return true
+			})
+		}
+	}
+	return c.aliases[o]
+}
+
+// writeThrough is called after an element write / append through the slice variable held in lhs.
+func (c *Ctx) writeThrough(st *State, lhs ast.Expr) {
+	if c.prefix != "" {
+		return
+	}
+	id, ok := unparen(lhs).(*ast.Ident)
+	if !ok {
+		return
+	}
+	o := c.info.ObjectOf(id)
+	for _, p := range c.aliasPartners(o) {
+		pv, ok := p.(*types.Var)
+		if !ok {
+			continue
+		}
+		cur := c.readVar(st, pv)
+		if !isSliceSort(cur.S) {
+			continue
+		}
+		nv := c.havoc(st, "aliased_"+pv.Name(), pv.Type())
+		st.assume("(= " + sLen(nv) + " " + sLen(cur) + ")")
+		c.writeVar(st, pv, nv)
+		c.note("write through " + id.Name + " may reach the backing array of " + pv.Name() + " (re-slice): its elements are unknown afterwards")
+	}
+}
+
 func (c *Ctx) execAssign(st *State, x *ast.AssignStmt) {
 	define := x.Tok == token.DEFINE
+	defer func() {
+		// element writes and appends through a re-sliced variable reach its partners
+		for i, l := range x.Lhs {
+			if ie, ok := unparen(l).(*ast.IndexExpr); ok {
+				c.writeThrough(st, ie.X)
+				continue
+			}
+			if i < len(x.Rhs) {
+				if call, ok := unparen(x.Rhs[i]).(*ast.CallExpr); ok {
+					if fid, ok := unparen(call.Fun).(*ast.Ident); ok && fid.Name == "append" && len(call.Args) > 0 {
+						c.writeThrough(st, call.Args[0])
+					}
+				}
+			}
+		}
+	}()
 	// op-assignments
 	if x.Tok != token.ASSIGN && x.Tok != token.DEFINE {
 		var op token.Token
